@@ -185,6 +185,12 @@ Theorem C05_eager_default_header_refuted :     (* header-less VCF: derived eager
     <> s_run F hdr [rows_of_file F recs; rows_of_file F recs] prog.
 Proof. exact eager_default_header_refuted. Qed.
 Print Assumptions C05_eager_default_header_refuted.
+Theorem C05_eager_needs_context_refuted :     (* BAM: a derived eager table cannot be written at all (make_header needs the context) *)
+  exists F hdr recs prog ctx, wf F recs /\
+    e_run F hdr [(rows_of_file F recs, ctx); (rows_of_file F recs, ctx)] prog
+    <> s_run F hdr [rows_of_file F recs; rows_of_file F recs] prog.
+Proof. exact eager_needs_context_refuted. Qed.
+Print Assumptions C05_eager_needs_context_refuted.
 Theorem C05_at_ragged_refuted :                (* C05-int-index-ragged-column *)
   exists F hdr recs prog, wf F recs /\
     map erase (m_run l_concat F hdr (start recs) prog)
@@ -268,6 +274,18 @@ Example C05_nonvacuous :
   /\ nth 9 (m_run l_concat_pinned W_bed3 [35; 10]%Z (start W_recs) W_prog) XErr
      = XBytes [35; 10; 100; 9; 51; 48; 9; 53; 10; 100; 9; 51; 48; 9; 55; 10; 100; 9; 51; 48; 9; 56; 10]%Z.
 Proof. exact nonvacuous. Qed.
+
+(* the scenario repaired by 0f67f4c (fields read before and after writing a selection; two selections of one parent
+   written in turn; the written file decoded): guard holds, lazy run = Spec run, and the second decoded file is the
+   requested selection in the requested order *)
+Example C05_write_between_reads :
+  let recs := [W_vcfrec; {| r_fields := [[100%Z]; [55%Z]]; r_raw := [1; 2; 3]%Z |}; {| r_fields := [[101%Z]; [57%Z]]; r_raw := [4; 5]%Z |}] in
+  let prog := [OSel 0 1 (IMask [true; false; true]); OGet 0 0; OWriteRead 0; OGet 0 1; OSel 0 1 (ITake [2; 0; 2]%Z); OWriteRead 0;
+               OGet 0 0; OWriteRead 1; OGet 1 1] in
+  m_guard_fixed_run l_concat W_bam [] (start recs) prog = true
+  /\ m_run l_concat W_bam [] (start recs) prog = s_run W_bam [] [rows_of_file W_bam recs; rows_of_file W_bam recs] prog
+  /\ nth 5 (m_run l_concat W_bam [] (start recs) prog) XErr = XRows [[VS [101%Z]; VI 9]; [VS [99%Z]; VI 5]; [VS [101%Z]; VI 9]].
+Proof. exact bam_write_between_reads. Qed.
 
 Example C05_fixed_witnesses :
   m_run l_concat W_bed3 [] (start [W_rec]) [ORep 1 1 [VI 7]; OCat 0 [0; 1]; OGet 0 1; OWrite 0]
